@@ -10,7 +10,7 @@
 // Wait(1)/Wait(5) return at once), MainLoop's thread a time far ahead (its queue pop(5) blocks until a command arrives).
 // One forked process per (world, session): the option statics of mqtthandler.cpp cannot be reset.
 //
-// Output: one ndjson record per session {"w","s","o":[per event {"outs":[...],"pr":[poll priorities]}]}, every out item is
+// Output: one ndjson record per session {"w","s","o":[per event {"outs":[...],"pr":[poll priorities],"sg":bus signal 0/1}]}, every out item is
 // {"k":"pub|sub|bus|in|run","t":[..],"p":[..],"r":n,"q":n,"e":n}:
 //   pub: t topic, p payload, r retain, q qos, e 1 = publishEmptyTopic      sub: t topic filter
 //   bus: t master telegram QQ ZZ PB SB NN DD.. (unescaped, no CRC), p slave data DD.. answered by the scripted slave
@@ -173,8 +173,9 @@ static void passive(World* W, const Slot& s, const JV& data) {
 static string runSession(const JV& w, const JV& sess, const string& dir, size_t wi, size_t si, bool show) {
   g_now = 1700000000;
   g_brokerUpAtStart = w["brokerdown"].i != 1;
-  if (w["intfile"].t == JV::ARR) {  // the integration file named in the world's --mqttint option
-    std::ofstream f((dir + "/mqttint.cfg").c_str());
+  if (w["intfile"].t == JV::ARR && w["intfile"].size()) {  // the integration file named in the world's --mqttint=mqttint.cfg option
+    if (chdir(dir.c_str()) != 0) { perror("chdir"); exit(2); }
+    std::ofstream f("mqttint.cfg");
     f << codes(w["intfile"]);
   }
   World* W = makeWorld(w, dir);
@@ -195,7 +196,7 @@ static string runSession(const JV& w, const JV& sess, const string& dir, size_t 
     }
     o += "],\"pr\":[";
     for (size_t k = 0; k < W->slots.size(); k++) { if (k) o += ","; o += num(static_cast<long>(W->slots[k].msg->getPollPriority())); }
-    o += "]}";
+    o += "],\"sg\":" + num(W->proto->hasSignal() ? 1 : 0) + "}";
     if (show) fprintf(stderr, "w%zu s%zu %-28s -> %s\n", wi + 1, si + 1, what.c_str(), o.c_str());
     if (!first) line += ",";
     first = false;
